@@ -11,7 +11,9 @@ Inductive deco :=
 | DFailC (ttl : Z).     (* failover whose store condition raises the listed exception on odd results *)
 (* observation per event: what the caller got, what happened to the function (EvDone: RVal 0, ENone) *)
 Definition obs := (cres * eact)%type.
-Inductive case := CStrat (d : deco) (h : list ev) (o : list obs).
+(* CStratActs: the wrapped function returns None on success, so the results tell nothing apart: only what every call did with
+   the function (executed it, started a refresh, served from the store) is compared *)
+Inductive case := CStrat (d : deco) (h : list ev) (o : list obs) | CStratActs (d : deco) (h : list ev) (acts : list eact).
 
 Definition K : key := "k".
 Definition b2act (b : bool) : eact := if b then EExec else ENone.
@@ -151,5 +153,6 @@ Definition judge (c : case) : verdict :=
        | DFailC ttl => ok_failc ttl None h o
        | DHit ttl hits upd _ => ok_hit ttl hits upd None 0 h o
        end, [])
+  | CStratActs d h acts => (list_eqb eact_eqb (map (fun ob => collapse (snd ob)) (run d empty h)) (map collapse acts), true, [])
   end.
-Definition explain (c : case) := match c with CStrat d h _ => run d empty h end.
+Definition explain (c : case) := match c with CStrat d h _ | CStratActs d h _ => run d empty h end.
